@@ -37,6 +37,16 @@ pub fn subjects(rng: &mut Rng, extra_random: usize) -> Vec<Subject> {
     add("unary-chain", "(((h41:3ff0000000000000[-])-:3ff0000000000000[-])-:3ff0000000000000[-])-:-[-]", from_rose("(((h41:3ff0000000000000[-])-:3ff0000000000000[-])-:3ff0000000000000[-])-:-[-]"), false);
     add("rooted-binary-ok", "((h41:3ff0000000000000[-],h42:3ff0000000000000[-])-:3ff0000000000000[-],(h43:4000000000000000[-],h44:3ff0000000000000[-])-:3ff0000000000000[-])-:-[-]",
         from_rose("((h41:3ff0000000000000[-],h42:3ff0000000000000[-])-:3ff0000000000000[-],(h43:4000000000000000[-],h44:3ff0000000000000[-])-:3ff0000000000000[-])-:-[-]"), false);
+    // numeric corners of the branch lengths: NaN, infinities, negative, zero, subnormal (all constructible by parsing)
+    for (nm, bits) in [("nan-length", "7ff8000000000000"), ("inf-length", "7ff0000000000000"), ("neg-inf-length", "fff0000000000000"), ("negative-length", "bff0000000000000"),
+                       ("zero-length", "0000000000000000"), ("subnormal-length", "0000000000000001"), ("huge-length", "7fefffffffffffff")] {
+        let b = format!("((h41:{bits}[-],h42:3ff0000000000000[-])-:3ff0000000000000[-],(h43:4000000000000000[-],h44:3ff0000000000000[-])-:{bits}[-])-:-[-]");
+        add(nm, &b, from_rose(&b), false);
+    }
+    {
+        let b = "((h41:7ff8000000000000[-],h42:7ff8000000000000[-])-:7ff8000000000000[-],(h43:7ff8000000000000[-],h44:7ff8000000000000[-])-:7ff8000000000000[-])-:-[-]";
+        add("all-nan-lengths", b, from_rose(b), false);
+    }
     // two roots (a forest): constructible with `add`
     {
         let mut t = from_rose("(h41:3ff0000000000000[-],h42:3ff0000000000000[-])-:-[-]");
@@ -108,6 +118,35 @@ pub fn subjects(rng: &mut Rng, extra_random: usize) -> Vec<Subject> {
     v
 }
 
+/// after a call that may have modified the tree (whether it succeeded or returned an error), the object must still be usable:
+/// every query and a few edits are issued on it, none may panic.  Returns the first one that does.
+fn followup(c: &Tree) -> Option<&'static str> {
+    macro_rules! f { ($name:expr, $e:expr) => {{ let mut d = c.clone(); if guarded(AssertUnwindSafe(|| { let _ = $e(&mut d); })).is_err() { return Some($name); } }}; }
+    f!("size", |d: &mut Tree| d.size());
+    f!("n_leaves", |d: &mut Tree| d.n_leaves());
+    f!("get_leaves", |d: &mut Tree| d.get_leaves());
+    f!("get_leaf_names", |d: &mut Tree| d.get_leaf_names());
+    f!("get_root", |d: &mut Tree| d.get_root().map(|r| d.levelorder(&r).map(|v| v.len())));
+    f!("is_binary", |d: &mut Tree| d.is_binary());
+    f!("is_rooted", |d: &mut Tree| d.is_rooted());
+    f!("height", |d: &mut Tree| d.height());
+    f!("diameter", |d: &mut Tree| d.diameter());
+    f!("length", |d: &mut Tree| d.length());
+    f!("cherries", |d: &mut Tree| d.cherries());
+    f!("colless", |d: &mut Tree| d.colless());
+    f!("sackin", |d: &mut Tree| d.sackin());
+    f!("to_newick", |d: &mut Tree| d.to_newick());
+    f!("to_nexus", |d: &mut Tree| d.to_nexus());
+    f!("get_partitions", |d: &mut Tree| { d.reset_bipartition_cache(); d.get_partitions().map(|p| p.len()) });
+    f!("distance_matrix", |d: &mut Tree| d.distance_matrix().map(|m| m.size));
+    f!("distance_matrix_recursive", |d: &mut Tree| { d.reset_bipartition_cache(); d.distance_matrix_recursive().map(|m| m.size) });
+    f!("compress", |d: &mut Tree| d.compress());
+    f!("ladderize", |d: &mut Tree| d.ladderize());
+    f!("reset_depths", |d: &mut Tree| d.reset_depths());
+    f!("radial_layout", |d: &mut Tree| phylotree::tree::draw::radial_layout(d).map(|_| ()));
+    None
+}
+
 /// every public function of `Tree` on one subject; returns (function, argument text, outcome class)
 pub fn tree_calls(s: &Subject, others: &[Subject]) -> Vec<(String, String, &'static str)> {
     let mut out: Vec<(String, String, &'static str)> = vec![];
@@ -121,6 +160,9 @@ pub fn tree_calls(s: &Subject, others: &[Subject]) -> Vec<(String, String, &'sta
     };
     let mut push = |name: &str, arg: String, r: Result<&'static str, String>| out.push((name.to_string(), arg, match r { Ok(c) => c, Err(_) => "panic" }));
     macro_rules! r { ($name:expr, $arg:expr, $f:expr) => {{ let mut c = t.clone(); let rr = guarded(AssertUnwindSafe(|| match $f(&mut c) { Ok(_) => "ok", Err(_) => "err" })); push($name, $arg, rr); }}; }
+    // a call that takes the tree mutably: outcome class as above, then the follow-up battery on the object it leaves behind
+    macro_rules! rm { ($name:expr, $arg:expr, $f:expr) => {{ let mut c = t.clone(); let rr = guarded(AssertUnwindSafe(|| match $f(&mut c) { Ok(_) => "ok", Err(_) => "err" })); let fine = rr.is_ok(); push($name, $arg, rr);
+        if fine { if let Some(f2) = followup(&c) { push(&format!("{}; then {}", $name, f2), $arg, Err(String::new())); } } }}; }
     macro_rules! i { ($name:expr, $arg:expr, $f:expr) => {{ let mut c = t.clone(); let rr = guarded(AssertUnwindSafe(|| { let _ = $f(&mut c); "ok" })); push($name, $arg, rr); }}; }
     i!("size", String::new(), |c: &mut Tree| c.size());
     i!("n_leaves", String::new(), |c: &mut Tree| c.n_leaves());
@@ -131,6 +173,9 @@ pub fn tree_calls(s: &Subject, others: &[Subject]) -> Vec<(String, String, &'sta
     i!("clone", String::new(), |c: &mut Tree| c.clone());
     i!("reset_bipartition_cache", String::new(), |c: &mut Tree| c.reset_bipartition_cache());
     i!("rescale", "2".to_string(), |c: &mut Tree| c.rescale(2.0));
+    for (fa, fv) in [("NaN", f64::NAN), ("inf", f64::INFINITY), ("0", 0.0), ("-1", -1.0)] {
+        rm!("rescale", fa.to_string(), |c: &mut Tree| -> Result<(), ()> { c.rescale(fv); Ok(()) });
+    }
     r!("get_root", String::new(), |c: &mut Tree| c.get_root());
     r!("is_binary", String::new(), |c: &mut Tree| c.is_binary());
     r!("is_rooted", String::new(), |c: &mut Tree| c.is_rooted());
@@ -148,10 +193,10 @@ pub fn tree_calls(s: &Subject, others: &[Subject]) -> Vec<(String, String, &'sta
     r!("get_partitions", String::new(), |c: &mut Tree| c.get_partitions());
     r!("distance_matrix", String::new(), |c: &mut Tree| c.distance_matrix());
     r!("distance_matrix_recursive", String::new(), |c: &mut Tree| c.distance_matrix_recursive());
-    r!("compress", String::new(), |c: &mut Tree| c.compress());
-    r!("resolve", String::new(), |c: &mut Tree| c.resolve());
-    r!("ladderize", String::new(), |c: &mut Tree| c.ladderize());
-    r!("reset_depths", String::new(), |c: &mut Tree| c.reset_depths());
+    rm!("compress", String::new(), |c: &mut Tree| c.compress());
+    rm!("resolve", String::new(), |c: &mut Tree| c.resolve());
+    rm!("ladderize", String::new(), |c: &mut Tree| c.ladderize());
+    rm!("reset_depths", String::new(), |c: &mut Tree| c.reset_depths());
     r!("to_newick", String::new(), |c: &mut Tree| c.to_newick());
     r!("to_formatted_newick", "OnlyNames".to_string(), |c: &mut Tree| c.to_formatted_newick(NewickFormat::OnlyNames));
     r!("to_nexus", String::new(), |c: &mut Tree| c.to_nexus());
@@ -160,7 +205,7 @@ pub fn tree_calls(s: &Subject, others: &[Subject]) -> Vec<(String, String, &'sta
     for &x in ids.iter() {
         let a = x.to_string();
         r!("get", a.clone(), |c: &mut Tree| c.get(&x).map(|n| n.id));
-        r!("get_mut", a.clone(), |c: &mut Tree| c.get_mut(&x).map(|n| n.id));
+        rm!("get_mut", a.clone(), |c: &mut Tree| c.get_mut(&x).map(|n| n.id));
         r!("get_subtree", a.clone(), |c: &mut Tree| c.get_subtree(&x));
         r!("get_descendants", a.clone(), |c: &mut Tree| c.get_descendants(&x));
         r!("get_subtree_leaves", a.clone(), |c: &mut Tree| c.get_subtree_leaves(&x));
@@ -169,15 +214,15 @@ pub fn tree_calls(s: &Subject, others: &[Subject]) -> Vec<(String, String, &'sta
         r!("inorder", a.clone(), |c: &mut Tree| c.inorder(&x));
         r!("levelorder", a.clone(), |c: &mut Tree| c.levelorder(&x));
         r!("get_path_from_root", a.clone(), |c: &mut Tree| c.get_path_from_root(&x));
-        r!("prune", a.clone(), |c: &mut Tree| c.prune(&x));
-        r!("add_child", a.clone(), |c: &mut Tree| c.add_child(Node::new_named("Z"), x, Some(1.0)));
+        rm!("prune", a.clone(), |c: &mut Tree| c.prune(&x));
+        rm!("add_child", a.clone(), |c: &mut Tree| c.add_child(Node::new_named("Z"), x, Some(1.0)));
         r!("prune;to_newick", a.clone(), |c: &mut Tree| { let _ = c.prune(&x); c.to_newick() });
         r!("prune;distance_matrix", a.clone(), |c: &mut Tree| { let _ = c.prune(&x); c.distance_matrix() });
         for &y in ids.iter() {
             let b = format!("{x},{y}");
             r!("get_common_ancestor", b.clone(), |c: &mut Tree| c.get_common_ancestor(&x, &y));
             r!("get_distance", b.clone(), |c: &mut Tree| c.get_distance(&x, &y));
-            r!("merge_children", b.clone(), |c: &mut Tree| c.merge_children(&x, &y, Some(1.0), None, Some(1.0), None));
+            rm!("merge_children", b.clone(), |c: &mut Tree| c.merge_children(&x, &y, Some(1.0), None, Some(1.0), None));
         }
     }
     for o in others.iter() {
